@@ -84,6 +84,10 @@ def gen_case(seed, tier="quick"):
                 g = rng.choice(allnames[dim + 1])  # a coordinate this dimension does not have
             nm = rng.choice(C.SYN[g]) if (mom and g in C.SYN and rng.random() < 0.6) else g
             v = C.value(rng, g, hazard=hz and rng.random() < 0.25)
+            if rng.random() < 0.15:
+                # legal but unusual: angles outside their principal range, negative radii / proper times
+                v = {"phi": round(rng.uniform(-9.5, 9.5), 3), "theta": round(rng.uniform(-4.0, 7.0), 3), "rho": -abs(v) if isinstance(v, float) else v,
+                     "tau": -abs(v) if isinstance(v, float) else v, "eta": round(rng.uniform(-12.0, 12.0), 3)}.get(g, v)
             if be == "sym":
                 val = {"$": "sym", "v": g + "n"} if rng.random() < 0.5 else {"$": "symnum", "v": [int(round(v * 4)) or 1, 4]}
             else:
